@@ -577,11 +577,6 @@ class MacroProgram(ElementProgram):
             self._macros[clause] = slot
             slot = nodes.UseInternalMacro(clause)
 
-        slot = wrap(
-            slot,
-            NAME
-        )
-
         # tal:on-error
         try:
             clause = ns[TAL, 'on-error']
@@ -657,8 +652,12 @@ class MacroProgram(ElementProgram):
         if use_macro:
             self._use_macro.pop()
 
+        # The name of a translation part goes around the error handler:
+        # the element's fallback is then the named part, rather than
+        # literal message text next to a half-finished part.
         return wrap(
             slot,
+            NAME,
             ON_ERROR
         )
 
